@@ -43,3 +43,38 @@ extern "C" int cpp_encrypt(int family, int alg, const unsigned char *key, const 
 extern "C" int cpp_decrypt(int family, int alg, const unsigned char *key, const unsigned char *nonce,
                 unsigned char *m, const unsigned char *c, size_t clen, const unsigned char *ad, size_t adlen)
 { DISPATCH(dec, nonce, m, c, clen, ad, adlen) }
+
+/* the same through the key constructors (T(key) for the AEAD/masked/SIV classes, T(key, len) for ISAP) */
+template <class T> static int enc_c1(const unsigned char *key, size_t klen, const unsigned char *nonce,
+    unsigned char *c, const unsigned char *m, size_t mlen, const unsigned char *ad, size_t adlen)
+{ (void)klen; T obj(key); obj.set_nonce(nonce, 16); return obj.encrypt(c, m, mlen, ad, adlen); }
+template <class T> static int enc_c2(const unsigned char *key, size_t klen, const unsigned char *nonce,
+    unsigned char *c, const unsigned char *m, size_t mlen, const unsigned char *ad, size_t adlen)
+{ T obj(key, klen); obj.set_nonce(nonce, 16); return obj.encrypt(c, m, mlen, ad, adlen); }
+template <class T> static int dec_c1(const unsigned char *key, size_t klen, const unsigned char *nonce,
+    unsigned char *m, const unsigned char *c, size_t clen, const unsigned char *ad, size_t adlen)
+{ (void)klen; T obj(key); obj.set_nonce(nonce, 16); return obj.decrypt(m, c, clen, ad, adlen); }
+template <class T> static int dec_c2(const unsigned char *key, size_t klen, const unsigned char *nonce,
+    unsigned char *m, const unsigned char *c, size_t clen, const unsigned char *ad, size_t adlen)
+{ T obj(key, klen); obj.set_nonce(nonce, 16); return obj.decrypt(m, c, clen, ad, adlen); }
+#define DISPATCH_CTOR(f1, f2, ...) \
+    switch (family * 3 + alg) { \
+    case 0: return f1<ascon::aead128>(key, 16, __VA_ARGS__); \
+    case 1: return f1<ascon::aead128a>(key, 16, __VA_ARGS__); \
+    case 2: return f1<ascon::aead80pq>(key, 20, __VA_ARGS__); \
+    case 3: return f1<ascon::aead128_masked>(key, 16, __VA_ARGS__); \
+    case 4: return f1<ascon::aead128a_masked>(key, 16, __VA_ARGS__); \
+    case 5: return f1<ascon::aead80pq_masked>(key, 20, __VA_ARGS__); \
+    case 6: return f1<ascon::siv128>(key, 16, __VA_ARGS__); \
+    case 7: return f1<ascon::siv128a>(key, 16, __VA_ARGS__); \
+    case 8: return f1<ascon::siv80pq>(key, 20, __VA_ARGS__); \
+    case 9: return f2<ascon::isap128a>(key, 16, __VA_ARGS__); \
+    case 10: return f2<ascon::isap128>(key, 16, __VA_ARGS__); \
+    case 11: return f2<ascon::isap80pq>(key, 20, __VA_ARGS__); \
+    } return -2000;
+extern "C" int cpp_encrypt_ctor(int family, int alg, const unsigned char *key, const unsigned char *nonce,
+                unsigned char *c, const unsigned char *m, size_t mlen, const unsigned char *ad, size_t adlen)
+{ DISPATCH_CTOR(enc_c1, enc_c2, nonce, c, m, mlen, ad, adlen) }
+extern "C" int cpp_decrypt_ctor(int family, int alg, const unsigned char *key, const unsigned char *nonce,
+                unsigned char *m, const unsigned char *c, size_t clen, const unsigned char *ad, size_t adlen)
+{ DISPATCH_CTOR(dec_c1, dec_c2, nonce, m, c, clen, ad, adlen) }
